@@ -210,13 +210,14 @@ check("C12",
       "Lean 4 proof of totality, documented exit status and no-stdout-on-reject for the step-file, interpolation and regress-log models + ASan/UBSan runs of every CLI on mutated grammar-derived and raw inputs, compared with the models where one exists",
       "Proof: the model functions for robsd-step -R/-W, interpolation and robsd-regress-log are total and terminating on every byte string (accepted by Lean without "
       "`partial`), exit with a documented status (step_read_exit_documented, step_write_exit_documented, rlog_exit_documented) and print nothing when they reject "
-      "(step_read_reject_no_stdout, rlog_reject_no_stdout, interp_reject_no_stdout). Implementation side (sampled, sanitizer builds): robsd-config, robsd-ls, "
+      "(step_read_reject_no_stdout, rlog_reject_no_stdout, interp_reject_no_stdout); the same for the configuration reader (config_exit_documented, config_reject_no_stdout), "
+      "whose lexer consumes at least one byte per step so that its fuel is never what ends the scan (lex_fuel_adequate, lex_fuel_any). Implementation side (sampled, sanitizer builds): robsd-config, robsd-ls, "
       "robsd-hook, robsd-step -L/-R/-W, robsd-regress-log, robsd-report, robsd-regress-html on grammar-derived configurations of the five modes (many regress entries "
       "with options, 16/17/33/64 canvas steps), step files, logs and templates, mutated (NUL, truncation, duplication, huge integers, 300..70000-byte tokens, nested "
       "and unterminated ${, unterminated strings/braces, keyword splices) and raw random bytes: no sanitizer report, no signal, no hang, documented exit, nothing "
       "on stdout and a diagnostic on rejection, rejected writes leave the file alone; -R and regress-log outputs equal the models on the same bytes.",
-      "Partial by nature: absence of memory errors and undefined behaviour in the C text is not decided by the proof, only sampled; the configuration parser has "
-      "no model here (its exit class, stdout, stderr and sanitizer behaviour are judged). Trusted: Lean kernel; ASan/UBSan; harness.",
+      "Partial by nature: absence of memory errors and undefined behaviour in the C text is not decided by the proof, only sampled; the configuration parser's "
+      "model is compared byte for byte in C08, here its exit class, stdout, stderr and sanitizer behaviour are judged. Trusted: Lean kernel; ASan/UBSan; harness.",
       "DESIGN.md#c12")
 
 check("C08",
@@ -232,7 +233,9 @@ check("C08",
       "(complete_tokens); ${name} is the configured value (value_configured), the table's default when not given (value_default); the file validates iff all "
       "required keywords are among the statements (accepted_iff_required). From the text (C08Lex): the lexer reads the plain rendering `keyword value\\n` of such a "
       "list back as exactly its tokens with no diagnostic (lex_render), so config_parse accepts the text and holds the configured values (complete_text); blanks and "
-      "comment lines in front of any token change nothing (lex_skips_space, lex_skips_comment). Correspondence: every "
+      "comment lines in front of any token change nothing (lex_skips_space, lex_skips_comment). Canvas (C08Steps): step statements with options in either order become the "
+      "configuration's step list in file order (steps_tokens); an empty or missing command is rejected. Regress (C08Regress): regress statements with any options except env "
+      "are accepted and ${regress} is the list of paths in file order, duplicates kept (regress_tokens, regress_list) - the input of C10's schedule theorems. Correspondence: every "
       "generated configuration (five modes, every settable keyword, shuffled order, comments/whitespace, 1-17 regress entries with all options, 1-17 steps, lock "
       "file or not) and every single-edit corruption goes through the real robsd-config with a template asking for all variables; exit status and stdout are "
       "compared with Conf.configCmd on the same bytes and with the generator's own expectation.",
